@@ -158,6 +158,7 @@ pub fn fault_name(k: &FaultKind) -> &'static str {
         FaultKind::SigNegateS => "SigNegateS",
         FaultKind::RandomEdit { .. } => "RandomEdit",
         FaultKind::AlphabetSwap { .. } => "AlphabetSwap",
+        FaultKind::RotateMsgTailToFooter { .. } => "RotateMsgTailToFooter",
         FaultKind::Duplicate => "Duplicate",
     }
 }
@@ -638,7 +639,7 @@ fn step(cx: &mut Ctx, idx: usize, op: &Op, ob: &Obs) {
         (Op::Build { b, key, out, entropy_fail, observe, .. }, Obs::Build { result, draws, reads }) => {
             judge_build(cx, idx, *b, *key, *out, entropy_fail, *observe, result, draws, reads);
         }
-        (Op::CoreIssue { proto, key, nonce_hex, payload, footer, assertion, out }, Obs::Issue { result }) => {
+        (Op::CoreIssue { proto, key, nonce_hex, payload, footer, assertion, out, .. }, Obs::Issue { result }) => {
             cx.j.trace.push(format!("core_issue:{}:{}", proto.name(), result.verdict_class()));
             match result {
                 Outcome::OkStr(t) => {
@@ -778,6 +779,13 @@ fn step(cx: &mut Ctx, idx: usize, op: &Op, ob: &Obs) {
             }
             if text.len() != 2 * n {
                 cx.j.nontrivial = true;
+            }
+            // C04 at the door where keys enter as text: a hex string that is accepted denotes exactly its
+            // bytes (two different key strings must not collapse into one key)
+            if let Outcome::OkStr(got) = outcome {
+                let want = text.to_ascii_lowercase();
+                cx.clause("C04", "hex_key_denotes_its_bytes", idx, got == &want, &want, got.clone(), &[("n", n.to_string())]);
+                cx.j.nontrivial |= cx.is("C04");
             }
         }
         _ => {
@@ -1240,6 +1248,13 @@ fn judge_deliver(
             ("token_assertion", format!("{:?}", root.assertion)),
             ("expected_assertion", format!("{:?}", v.assertion)),
         ];
+        if key_match {
+            // C03 does not depend on what footer / assertion the verifier expects: a re-spliced token (e.g.
+            // message tail moved into the footer segment, presented with the footer it now carries) is
+            // never acceptable under the producing key
+            let ok = matches!(out, Outcome::Err { class: ErrClass::Cipher, .. }) && main.calls.is_empty();
+            cx.clause("C03", "altered_token_rejected_under_any_expectation", idx, ok, "Err(auth/format class), no validator call", format!("{} calls={}", out.short(), main.calls.len()), &facts);
+        }
         if !assert_match {
             cx.clause("C06", "altered_token_under_other_assertion_rejected", idx, out.is_err(), "Err", out.short(), &facts);
         }
@@ -1318,7 +1333,7 @@ fn judge_deliver(
             let val = j.get(vs.claim.key()).cloned().unwrap_or(Value::Null);
             let acc = match &vs.behaviour {
                 crate::env::Behaviour::Accept => true,
-                crate::env::Behaviour::Reject => false,
+                crate::env::Behaviour::Reject | crate::env::Behaviour::RejectAs(_) => false,
                 crate::env::Behaviour::ExpectEq(x) => x == &val,
             };
             if !acc {
@@ -1548,19 +1563,35 @@ fn judge_readback(cx: &mut Ctx, idx: usize, root: &TokenInfo, out: &Outcome) {
     } else {
         cx.clause("C13", "token_has_exp", build_ev, has_exp, "an exp member", Value::Object(o.clone()).to_string(), &facts);
     }
-    let caller_time = ["exp", "iat", "nbf"].iter().any(|k| snap.supplied.contains(*k));
-    if !caller_time {
+    // every default the caller did not replace is still the creation-time default (compared as instants):
+    // iat == nbf == T_c and exp == T_c + 1h, independently of which other claims were set
+    {
         let get = |k: &str| o.get(k).and_then(|v| v.as_str()).and_then(civil::parse);
-        let ok = get("iat") == Some(snap.created) && get("nbf") == Some(snap.created) && (snap.ack || get("exp") == Some(snap.created + 3600 * civil::NS));
-        cx.clause(
-            "C13",
-            "defaults_are_creation_time_and_one_hour",
-            build_ev,
-            ok,
-            &format!("iat == nbf == {} and exp == +1h (as instants)", civil::render(snap.created, civil::Style { offset_min: 0, frac_digits: 9, sep: 'T', zulu: Some('Z') })),
-            format!("iat={:?} nbf={:?} exp={:?}", o.get("iat"), o.get("nbf"), o.get("exp")),
-            &facts,
-        );
+        let mut ok = true;
+        let mut judged = 0;
+        if !snap.supplied.contains("iat") {
+            judged += 1;
+            ok &= get("iat") == Some(snap.created);
+        }
+        if !snap.supplied.contains("nbf") {
+            judged += 1;
+            ok &= get("nbf") == Some(snap.created);
+        }
+        if !snap.supplied.contains("exp") && !snap.ack {
+            judged += 1;
+            ok &= get("exp") == Some(snap.created + 3600 * civil::NS);
+        }
+        if judged > 0 {
+            cx.clause(
+                "C13",
+                "defaults_are_creation_time_and_one_hour",
+                build_ev,
+                ok,
+                &format!("each default not replaced by the caller: iat == nbf == {} and exp == +1h (as instants)", civil::render(snap.created, civil::Style { offset_min: 0, frac_digits: 9, sep: 'T', zulu: Some('Z') })),
+                format!("iat={:?} nbf={:?} exp={:?} (caller supplied {:?})", o.get("iat"), o.get("nbf"), o.get("exp"), snap.supplied),
+                &facts,
+            );
+        }
     }
     // C17: caller-supplied values replace the defaults
     if snap.dups.is_empty() {
